@@ -259,14 +259,23 @@ func c06Rearm(c *Ctx) *RuleResult {
 				return false
 			}
 			found := false
-			ast.Inspect(d.Call, func(m ast.Node) bool {
-				if call, ok := m.(*ast.CallExpr); ok && calleeOf(info, call) == add && len(call.Args) == 3 {
-					if ue, ok := ast.Unparen(call.Args[0]).(*ast.UnaryExpr); ok && fieldOf(info, ue.X) == wKey {
-						found = true
+			check := func(root ast.Node, rinfo *types.Info) {
+				ast.Inspect(root, func(m ast.Node) bool {
+					if call, ok := m.(*ast.CallExpr); ok && calleeOf(rinfo, call) == add && len(call.Args) == 3 {
+						if ue, ok := ast.Unparen(call.Args[0]).(*ast.UnaryExpr); ok && fieldOf(rinfo, ue.X) == wKey {
+							found = true
+						}
 					}
+					return true
+				})
+			}
+			check(d.Call, info)
+			// or a helper (possibly nested) that arms it
+			for fn := range staticReach(p, []ast.Node{d.Call}, info) {
+				if fd := p.Decl(fn); fd != nil {
+					check(fd.Body, p.InfoFor(fd))
 				}
-				return true
-			})
+			}
 			return found
 		}
 		type origin struct {
@@ -303,7 +312,7 @@ func c06Rearm(c *Ctx) *RuleResult {
 					// a return taken when the worker already exists
 					if ret, ok := n.(*ast.ReturnStmt); ok {
 						for _, gd := range flattenGuards(GuardsOf(info, u.Decl.Body, ret)) {
-							if id, ok := ast.Unparen(gd.Cond).(*ast.Ident); ok && gd.Pos && id.Name == "ok" {
+							if id, ok := ast.Unparen(gd.Cond).(*ast.Ident); ok && gd.Pos {
 								if src := okSourceIsLookup(u, id, workers); src {
 									return true
 								}
@@ -433,10 +442,13 @@ func tupleSource(u *FuncUnit, e ast.Expr) *ast.CallExpr {
 		if !ok || len(as.Rhs) != 1 {
 			return true
 		}
+		if as.Pos() > id.Pos() {
+			return true
+		}
 		for _, l := range as.Lhs {
-			if lid, ok := l.(*ast.Ident); ok && info.Defs[lid] == v {
+			if lid, ok := l.(*ast.Ident); ok && (info.Defs[lid] == v || info.Uses[lid] == v) {
 				if call, ok := ast.Unparen(as.Rhs[0]).(*ast.CallExpr); ok {
-					out = call
+					out = call // the closest preceding definition wins
 				}
 			}
 		}
@@ -525,6 +537,6 @@ func init() {
 		Level: "other",
 		Explanation: "Structural necessary conditions of 'failures time out, wake everyone and leak nothing': each reaper is armed with its own configured timeout and documented status code; the retry counter only restarts on (re)assignment and re-issue is bounded; Synchronize re-arms the worker cleanup on every exit after touching cleanup state; every blocking select has a context/timer arm and runs unlocked; every container of client/worker state is emptied by code reachable from a cleanup callback; callbacks only run from enter(). That timers fire and quiescence over all crash points are not decided.",
 		Assumptions: []string{"the clock delivers timer events", "cleanup callbacks are only registered through cleanupQueue.add"},
-		Rules:       []RuleFunc{c06Cfg, c06Retry, c06Rearm, c06Select, c06Reaper, schedWaiters},
+		Rules:       []RuleFunc{c06Cfg, c06Retry, c06Rearm, c06Select, c06Reaper, schedWaiters, schedWorkerRemoval, schedDrainLoops, schedStageWake, schedRemoveIfEmptyWalk},
 	})
 }
